@@ -23,18 +23,30 @@ func RunDSL() error {
 	if len(roots) == 0 {
 		return nil
 	}
-	executed := 0
+	executed := make(map[string]bool, len(roots))
 	recursed := 0
-	for executed < len(roots) {
+	for {
+		var pending []Root
+		for _, root := range roots {
+			if !executed[root.EvalName()] {
+				pending = append(pending, root)
+			}
+		}
+		if len(pending) == 0 {
+			break
+		}
 		recursed++
-		start := executed
-		executed = len(roots)
-		for _, root := range roots[start:] {
+		for _, root := range pending {
+			executed[root.EvalName()] = true
 			root.WalkSets(runSet)
 		}
 		if recursed > 100 {
 			// Let's cross that bridge once we get there
 			return fmt.Errorf("too many generated roots, infinite loop?")
+		}
+		// Pick up the roots registered by the DSL that just ran.
+		if roots, err = Context.Roots(); err != nil {
+			return err
 		}
 	}
 	if Context.Errors != nil {
